@@ -20,7 +20,7 @@ RULES = {
            "enable->disable->enable; random delays injected at the camera's own lock/wait/sleep calls. Oracle: ids strictly "
            "increase within a run; with triggering: frames delivered <= triggers issued (counter bumped before the call), "
            "no frame with zero triggers, id < triggers issued since start (ids count generated frames and restart at 0); "
-           "free-running with exposure >= 2 ms: id <= 3*elapsed/exposure+3; stop returns and releases a pending get_frame "
+           "(free-running ids far ahead of elapsed/exposure are counted as information only); stop returns and releases a pending get_frame "
            "(30 s watchdog, re-run once). Distinct by (trigger mode sequence, pending-at-stop, reconfigurations).",
 }
 
@@ -115,7 +115,7 @@ def run(prop, tier, replay=None):
                        if prop == "C17" else
                        ["ThreadSanitizer reports on the camera's deliberately unsynchronised run flags are not part of the verdict",
                         "a hang of stop/get_frame is believed only when it repeats from a fresh process",
-                        "pacing bound assumes the camera spends at least one exposure per generated frame when exposure >= 2 ms"])
+                        "the restart of the frame count is decided in trigger mode only (id < triggers issued since start)"])
     return chk.finish(int(tot.get("cases", 0)), distinct, RULES[prop])
 
 
